@@ -14,7 +14,7 @@
 //! [spec]: https://tc39.es/ecma262/multipage/ecmascript-language-expressions.html#sec-property-accessors
 //! [access]: https://developer.mozilla.org/en-US/docs/Web/JavaScript/Reference/Operators/Property_Accessors
 
-use crate::expression::Expression;
+use crate::expression::{Expression, literal::LiteralKind};
 use crate::function::PrivateName;
 use crate::visitor::{VisitWith, Visitor, VisitorMut};
 use crate::{Span, Spanned};
@@ -196,9 +196,18 @@ impl Spanned for SimplePropertyAccess {
 impl ToInternedString for SimplePropertyAccess {
     #[inline]
     fn to_interned_string(&self, interner: &Interner) -> String {
-        let target = self.target.to_interned_string(interner);
+        let mut target = self.target.to_interned_string(interner);
         match self.field {
             PropertyAccessField::Const(ident) => {
+                // `1.x` does not lex (the dot belongs to the number): a numeric literal target is
+                // written in parentheses.
+                if matches!(
+                    self.target.as_ref(),
+                    Expression::Literal(lit)
+                        if matches!(lit.kind(), LiteralKind::Int(_) | LiteralKind::Num(_))
+                ) {
+                    target = format!("({target})");
+                }
                 format!("{target}.{}", interner.resolve_expect(ident.sym()))
             }
             PropertyAccessField::Expr(ref expr) => {
